@@ -938,6 +938,9 @@ class Interp:
         m = re.match(r"core::num::<impl (\w+)>::(MAX|MIN)$", c)
         if m and m.group(1) in INT_TYPES:
             return self.constant(f"{m.group(1)}::{m.group(2)}")
+        m = re.match(r"(?:core::num::<impl (\w+)>|(\w+))::BITS$", c)
+        if m and (m.group(1) or m.group(2)) in INT_TYPES:
+            return self.const_int(INT_TYPES[m.group(1) or m.group(2)][0], "u32")
         if c == "()":
             return Unit()
         m = re.match(r"(?:std::num::|core::num::)?Wrapping::<(\w+)>\((.+)\)$", c)
@@ -975,7 +978,7 @@ class Interp:
             return None
         name, tyname = m.group(2), m.group(1)
         for mf in [self.mir] + self.mir.others:
-            hits = [(pos, h, ty) for pos, h, ty in getattr(mf, "consts", []) if h.endswith("::" + name)]
+            hits = [(pos, h, ty) for pos, h, ty in getattr(mf, "consts", []) if h.endswith("::" + name) or h == name]
             simple = [(h, ty, val, pos) for h, ty, val, pos in getattr(mf, "simple_consts", []) if h.endswith("::" + name) or h == name]
             if len(simple) > 1 and all("<impl at" in h for h, _, _, _ in simple):
                 keep = [x for x in simple if impl_line_mentions(x[0], tyname)]
